@@ -62,6 +62,46 @@ CHECKS = {
         ref="DESIGN.md 3/C17"),
 }
 
+CHECKS.update({
+    "C01": dict(
+        cat="translation_validation",
+        text=("Translation validation of the real pipeline against an independent reference semantics: a "
+              "seeded typed generator (gen.py) produces loop-free Cairo programs (checked integer arithmetic, "
+              "casts, short circuit, if/match, tuples/struct/enum/Option, numeric match, derived PartialEq, "
+              "helper calls with inline attributes, concrete-trip-count while loops); the reference evaluator "
+              "interprets the same AST over z3 terms (documented panic felts, left-to-right evaluation). For "
+              "every accepted CASM path (adversarial hints) and every guarded reference outcome, z3 decides "
+              "path AND guard AND outcome != reference is unsatisfiable, for all inputs. The `fold` family "
+              "(constant 0/1/-1/MIN/MAX on either side of every operator, every integer type), the `spec` "
+              "family (specialisation call patterns) and the plumbing family are checked the same way. "
+              "The 'for all programs' quantifier is sampled (seeded); 'for all inputs' is decided."),
+        technique="symbolic execution of emitted CASM + SMT equivalence with a reference evaluator over the generator's AST (z3)",
+        ref="DESIGN.md 3/C01, 7.2"),
+    "C05": dict(
+        cat="translation_validation",
+        text=("Each program (generated, fold, spec, plumbing) is compiled by the real compiler with "
+              "optimizations disabled (baseline) and under 5 (quick) / 13 (thorough) configurations "
+              "(inlining strategies, skip_const_folding, numeric-match thresholds, LP metadata solvers); "
+              "both CASM programs are executed symbolically over the same input variables and for every "
+              "pair of accepted paths z3 decides that the user-visible outcomes (values / panic data) "
+              "agree for all inputs and hint answers; gas and steps are deliberately not compared. A sat "
+              "model is replayed in both real binaries."),
+        technique="symbolic execution of two compilations + SMT equivalence of outcomes (z3)",
+        ref="DESIGN.md 3/C05, 7.2"),
+    "C07": dict(
+        cat="exploration",
+        text=("PARTIAL by design: the run-time half (every operator on every operand) is decided by C06 "
+              "against the same specifications. The compile-time evaluators (const items, const folding) "
+              "cannot be executed symbolically (BigInt arithmetic interleaved with salsa queries), so they "
+              "are driven at solver-chosen representatives: for every region of each template's "
+              "specification z3 picks boundary, adjacent and interior operand tuples; the real compiler "
+              "evaluates `const C: T = e[v];` and `fn f() -> T { e[v] }` with folding on and off; value / "
+              "compile error must match the specification exactly. felt252 operands are written in both "
+              "signed literal forms. Nothing is claimed about tuples that were not chosen."),
+        technique="SMT-chosen representatives per specification region, evaluated by the real compiler (solver-guided exploration)",
+        ref="DESIGN.md 3/C07"),
+})
+
 B_NOTE = ("Trusted: Kani 0.68 / CBMC 6.11 / CaDiCaL; the reference meaning of each instruction shape and the "
           "plain copies of cairo-vm's instruction enums in the harness crate; stubs listed in the evidence "
           "(num-bigint `<<` and `|=` models for the opcode-extension shapes; `words_per_felt` model). Bounds per "
@@ -105,9 +145,6 @@ CHECKS.update({
 })
 
 NOT_APPLICABLE = {
-    "C01": "check under construction (translation validation against a reference evaluator, DESIGN 3/C01)",
-    "C05": "check under construction (translation validation between configurations, DESIGN 3/C05)",
-    "C07": "check under construction (DESIGN 3/C07)",
     "C08": "quantifies over whole programs pushed through the salsa front end and two whole-program analyses; no kernel a solver can encode (DESIGN 4)",
     "C09": "lexer/parser/formatter/diagnostics run against the salsa database; symbolic source text through a recursive-descent parser with interning is out of reach of Kani/SMT here (DESIGN 4)",
     "C10": "same code as C09: green-node widths live in interned nodes of the salsa database (DESIGN 4)",
